@@ -72,6 +72,52 @@ type Batch struct {
 	KeyOrder  []string `json:"key_order,omitempty"` // order of the order-sensitive keys; the rest go before or after
 	RestFirst bool     `json:"rest_first,omitempty"`
 	TrailNL   bool     `json:"trailing_newline,omitempty"`
+
+	// Delivery: how the bytes of the body reach the parser.  "" = one reader that hands out everything it is asked
+	// for; "bytes" = one byte per Read; "span-ends" / "span-mids" / "span-ends+mids" = a Read never crosses the end /
+	// the middle of a span object; "chunk<N>" = N bytes per Read; "half" = two segments; "cut@a[,b]" = segments
+	// ending at the given offsets.
+	Delivery string `json:"delivery,omitempty"`
+
+	// Generated bodies (size classes): when GenN > 0 the spans are GenN generated spans (see genSpans); span
+	// GenLongAt (if >= 0 and GenLongLen > 0) carries a tag value of GenLongLen characters.
+	GenN       int `json:"gen_n,omitempty"`
+	GenPad     int `json:"gen_pad,omitempty"`
+	GenLongAt  int `json:"gen_long_at,omitempty"`
+	GenLongLen int `json:"gen_long_len,omitempty"`
+}
+
+// genSpans: n well-formed spans with pairwise different ids, 500 per trace (the read path LIMITs a trace to 2000).
+func genSpans(n, pad, longAt, longLen int) []Span {
+	out := make([]Span, 0, n)
+	for i := 0; i < n; i++ {
+		s := Span{TraceID: fmt.Sprintf("%032x", 0xA000+i/500), SpanID: fmt.Sprintf("%016x", i+1), Name: "s" + strconv.Itoa(i), HasName: true,
+			StartNs: 1700000000000000000 + uint64(i)*1000, DurNs: 1000 * uint64(i%7), HasTS: true, HasDur: true, HasTags: true,
+			Attrs: []KV{{"k", AV{Kind: "str", S: "v" + strconv.Itoa(i)}}}}
+		svc := "svc" + strconv.Itoa(i%3)
+		s.Local = &svc
+		if i%500 > 0 {
+			s.Parent = fmt.Sprintf("%016x", i)
+		}
+		if pad > 0 {
+			s.Attrs = append(s.Attrs, KV{"pad", AV{Kind: "str", S: strings.Repeat("x", pad)}})
+		}
+		if longLen > 0 && i == longAt {
+			s.Attrs = append(s.Attrs, KV{"long", AV{Kind: "str", S: strings.Repeat("y", longLen)}})
+		}
+		out = append(out, s)
+	}
+	return out
+}
+
+// expanded returns the batch with generated spans materialised.
+func (b *Batch) expanded() *Batch {
+	if b.GenN == 0 || len(b.Spans) > 0 {
+		return b
+	}
+	cp := *b
+	cp.Spans = genSpans(b.GenN, b.GenPad, b.GenLongAt, b.GenLongLen)
+	return &cp
 }
 
 // ---- expected rows -------------------------------------------------------------------------------------------------
@@ -199,6 +245,10 @@ func (b *Batch) shapeKey() string {
 		sb.WriteString("/rf")
 	}
 	sb.WriteString(strings.Join(b.KeyOrder, ">"))
+	fmt.Fprintf(&sb, "/d=%s/g=%d.%d.%d.%d", b.Delivery, b.GenN, b.GenPad, b.GenLongAt, b.GenLongLen)
+	if b.GenN > 0 {
+		return sb.String()
+	}
 	for _, r := range b.Res {
 		fmt.Fprintf(&sb, "|R%d%v:", r.Scopes, r.NoRes)
 		for _, a := range r.Attrs {
